@@ -550,6 +550,7 @@ func main() {
 		QuickDeadline: 150, ThoroughDeadline: 840,
 		Run: func(t *vlib.T) {
 			runRD(t)
+			runSave(t)
 			runRT(t)
 			runHist(t)
 		},
